@@ -9,6 +9,14 @@ Streams
               versions of every coordinate differ in values, field sets and partly metadata)
               x 6 join types x every `on` subset of {country, k}: join and merge; all pairs for
               add_statics / period_merge; all triples for coalesce
+  sequence    state carried between calls: on ONE target object sequences of add_statics / period_merge /
+              merge / coalesce / join with two different sources, field lists, suffixes, join types and
+              `on` (defaults included); every call is made twice with other calls in between and the
+              first result spoiled in place (cell list reordered / emptied, value dicts of new cells
+              edited, the dict returned by `slices` emptied); each result is compared with the model as
+              usual (model input = the operands' ORIGINAL cells); repeated calls must agree; accessors
+              (slices, right_edge, metadata, periods) of the operands are read before and after, those
+              of each result are compared with accessors recomputed from its cells
   random      larger random pairs: overlapping / disjoint coordinates, differing field sets,
               scalar and array values, three cell classes, random `on`, class mismatch, unknown
               join type, empty operands, duplicate coordinates and prev-only variants
@@ -48,10 +56,12 @@ class Batcher:
     def _new(self):
         self.cells, self.index, self.items = [], {}, []
 
-    def idx(self, cell):
+    def idx(self, cell, fresh=False):
+        """index of the cell's wire form. `fresh`: do not trust the per-object cache (sequence stream:
+        an object may have been mutated, or an implementation may hand a cached object back)"""
         if cell is None:
             return None
-        w = self._wire_by_id.get(id(cell))
+        w = None if fresh else self._wire_by_id.get(id(cell))
         if w is None:
             wc = w_cell(cell)
             w = (json.dumps(wc, separators=(",", ":")), wc)
@@ -64,8 +74,18 @@ class Batcher:
             self.cells.append(w[1])
         return i
 
-    def idxs(self, cells):
-        return [self.idx(c) for c in cells]
+    def idx_wire(self, wc):
+        """index of an already converted wire cell in the CURRENT batch table"""
+        key = json.dumps(wc, separators=(",", ":"))
+        i = self.index.get(key)
+        if i is None:
+            i = len(self.cells)
+            self.index[key] = i
+            self.cells.append(wc)
+        return i
+
+    def idxs(self, cells, fresh=False):
+        return [self.idx(c, fresh) for c in cells]
 
     def add(self, item, meta):
         self.items.append(item)
@@ -92,7 +112,7 @@ class Batcher:
 
     def expand(self, meta, item):
         """self-contained wire form of an item (indices replaced by wire cells) for replays"""
-        cells = self.batches[meta["_b"]][0]
+        cells = self.batches[meta["_b"]][0] if meta["_b"] < len(self.batches) else self.cells
 
         def ex(v):
             if isinstance(v, list):
@@ -111,14 +131,14 @@ class Batcher:
         return out
 
 
-def impl_cells(b, res):
+def impl_cells(b, res, fresh=False):
     st, v = res
-    return {"ok": b.idxs(v.cells)} if st == "ok" else {"err": v}
+    return {"ok": b.idxs(v.cells, fresh)} if st == "ok" else {"err": v}
 
 
-def impl_pairs(b, res):
+def impl_pairs(b, res, fresh=False):
     st, v = res
-    return {"ok": [[b.idx(p[0]), b.idx(p[1])] for p in v]} if st == "ok" else {"err": v}
+    return {"ok": [[b.idx(p[0], fresh), b.idx(p[1], fresh)] for p in v]} if st == "ok" else {"err": v}
 
 
 # ------------------------------------------------------------------------------------------
@@ -267,10 +287,13 @@ def subsets(cells):
 # item builders
 # ------------------------------------------------------------------------------------------
 
-def add_join_merge(ctx, b, ta, tb, ty, on, tag, digest):
+def add_join_merge(ctx, b, ta, tb, ty, on, tag, digest, with_merge=True):
     r = call(do_join, ta, tb, ty, on)
     b.add({"op": "join", "ty": ty, "on": on, "a": b.idxs(ta.cells), "b": b.idxs(tb.cells),
            "impl": impl_pairs(b, r)}, {"tag": tag, "digest": digest + ":join"})
+    if not with_merge:
+        ctx.count(f"{tag}/join-only/ty={ty}")
+        return
     r = call(do_merge, ta, tb, ty, on)
     b.add({"op": "merge", "ty": ty, "on": on, "a": b.idxs(ta.cells), "b": b.idxs(tb.cells),
            "impl": impl_cells(b, r)}, {"tag": tag, "digest": digest + ":merge"})
@@ -319,7 +342,9 @@ def exhaustive(ctx, b, rng, n, kind, designed, coalesce_n):
             ta, tb = SL[ma], SR[mb]
             for on in ON_SUBSETS:
                 for ty in JOIN_TYPES:
-                    add_join_merge(ctx, b, ta, tb, ty, on, tag, f"{uid}:{ma}:{mb}:{ty}:{on}")
+                    # quick tier, 5-coordinate universe: merge (which calls join) on every second pair
+                    add_join_merge(ctx, b, ta, tb, ty, on, tag, f"{uid}:{ma}:{mb}:{ty}:{on}",
+                                   with_merge=ctx.thorough or n < 5 or (ma + mb) % 2 == 0)
             st = statics_sets[(ma + mb) % len(statics_sets)]
             add_statics_item(ctx, b, ta, tb, st, tag, f"{uid}:{ma}:{mb}:{st}")
             sfx = [None, "_r", ""][(ma * 7 + mb) % 3]
@@ -452,6 +477,173 @@ def random_stream(ctx, b, rng, n_cases):
 
 # ------------------------------------------------------------------------------------------
 
+# ------------------------------------------------------------------------------------------
+# sequence stream: state carried between calls
+# ------------------------------------------------------------------------------------------
+
+def accessors(t):
+    """cells and derived / cached accessors of a triangle, in wire form (always recomputed from the
+    objects: no per-object cache)"""
+    def cells(cs):
+        return [w_cell(c) for c in cs]
+    out = {"cells": cells(t.cells)}
+    st, sl = call(lambda: t.slices)
+    out["slices"] = sorted(([common.w_meta(m), cells(x.cells)] for m, x in sl.items()),
+                           key=lambda e: json.dumps(e[0], sort_keys=True)) if st == "ok" else sl
+    st, re = call(lambda: t.right_edge)
+    out["right_edge"] = cells(re.cells) if st == "ok" else re
+    st, ms = call(lambda: t.metadata)
+    out["metadata"] = [common.w_meta(m) for m in ms] if st == "ok" else ms
+    st, ps = call(lambda: t.periods)
+    out["periods"] = [[common.w_date(x), common.w_date(y)] for x, y in ps] if st == "ok" else ps
+    return out
+
+
+def mutate_result(rng, res, input_cell_ids, input_dict_ids):
+    """spoil a RESULT in place (what a caller may do with an object it was handed): reorder / empty
+    its cell list, edit the value dicts of cells that are new objects with new dicts (cells and
+    dicts shared with the operands are the operands' own and stay untouched)"""
+    if isinstance(res, list):            # join: list of pairs
+        cells = [c for p in res for c in p if c is not None]
+        res.reverse()
+        if rng.random() < 0.5:
+            del res[:]
+    else:
+        cells = list(res.cells)
+        res.cells.sort(reverse=True)
+        if rng.random() < 0.5:
+            del res.cells[:]
+    for c in cells:
+        if id(c) not in input_cell_ids and id(c.values) not in input_dict_ids:
+            c.values["spoiled"] = -1
+            for k in list(c.values)[:1]:
+                del c.values[k]
+
+
+def seq_case(ctx, b, rng, kind, i):
+    left = gen.rand_cells(rng, kind=kind, max_cells=10, n_samples=3, n_slices=rng.choice([1, 2, 2, 3]),
+                          fields=rng.choice(_FIELD_SETS[:5]), single_attr=rng.random() < 0.5)
+    st, ta = call(Triangle, left)
+    st2, tb = call(Triangle, perturb_right(rng, left, kind))
+    st3, tc = call(Triangle, perturb_right(rng, left, kind))
+    if "err" in (st, st2, st3):
+        return
+    operands = {"a": ta, "b": tb, "c": tc}
+    st, reb = call(lambda: tb.right_edge)
+    st2, rec = call(lambda: tc.right_edge)
+    if st == "ok" and st2 == "ok":
+        operands["rb"], operands["rc"] = reb, rec
+    # (c) accessors of the inputs BEFORE; original wire cells are what the model is given throughout
+    before = {k: accessors(t) for k, t in operands.items()}
+    orig_wire = {k: before[k]["cells"] for k in operands}
+
+    class _Orig(dict):          # indices of the ORIGINAL wire cells in the batch table current at use
+        def __getitem__(self, k):
+            return [b.idx_wire(wc) for wc in orig_wire[k]]
+    orig = _Orig()
+    input_cell_ids = {id(c) for t in operands.values() for c in t.cells}
+    input_dict_ids = {id(c.values) for t in operands.values() for c in t.cells}
+    fields = sorted({k for t in (tb, tc) for c in t.cells for k in c.values})
+    detail_keys = sorted({k for t in (ta, tb, tc) for c in t.cells for k in c.metadata.details})
+
+    def mk_step():
+        op = rng.choice(["add_statics", "add_statics", "period_merge", "merge", "merge", "coalesce", "join"])
+        other = rng.choice(["b", "c"])
+        if op == "add_statics":
+            return (op, other, rng.choice(["default", (), tuple(fields), tuple(f for f in fields if rng.random() < 0.5)]))
+        if op == "period_merge":
+            return (op, "r" + other if "rb" in operands else other, rng.choice(["default", None, "_s", ""]))
+        if op == "coalesce":
+            return (op, other, rng.choice([("a", "b", "c"), ("b", "a"), ("c", "b", "a"), ("a",)]))
+        on = rng.choice(["default", None, ("country",), tuple(rng.sample(detail_keys + ["currency", "risk_basis"], 2))])
+        return (op, other, (rng.choice(["default"] + JOIN_TYPES), on))
+
+    base = [mk_step() for _ in range(rng.randrange(4, 8))]
+    again = list(base)
+    rng.shuffle(again)
+    steps = base + again                      # every call happens (at least) twice, other calls in between
+    seen = {}
+    tag = "seq"
+    for n, (op, other, par) in enumerate(steps):
+        tb_ = operands[other]
+        if op == "add_statics":
+            statics = None if par == "default" else list(par)
+            r = call(do_add_statics, ta, tb_, statics)                                  # (d) default argument
+            item = {"op": "addStatics", "a": orig["a"], "b": orig[other],
+                    "statics": DEFAULT_STATICS if statics is None else statics, "impl": impl_cells(b, r, True)}
+        elif op == "period_merge":
+            r = call(lambda: ta.period_merge(tb_)) if par == "default" else call(do_period_merge, ta, tb_, par)
+            item = {"op": "periodMerge", "a": orig["a"], "b": orig[other],
+                    "suffix": None if par == "default" else par, "impl": impl_cells(b, r, True)}
+        elif op == "coalesce":
+            ts = [operands[k] for k in par]
+            r = call(do_coalesce, ts)
+            item = {"op": "coalesce", "ts": [orig[k] for k in par], "impl": impl_cells(b, r, True)}
+        else:
+            ty, on = par
+            kw = {}
+            if ty != "default":
+                kw["join_type"] = ty
+            if on != "default":
+                kw["on"] = None if on is None else list(on)
+            if op == "merge":
+                r = call(lambda: ta.merge(tb_, **kw))
+                impl = impl_cells(b, r, True)
+            else:
+                r = call(lambda: bermuda.join(ta, tb_, **kw))
+                impl = impl_pairs(b, r, True)
+            item = {"op": op, "ty": "full" if ty == "default" else ty,
+                    "on": None if on in ("default", None) else list(on), "a": orig["a"], "b": orig[other],
+                    "impl": impl}
+        b.add(item, {"tag": tag, "digest": f"seq:{i}:{n}"})
+        ctx.count(f"seq/{op}")
+        # (a) the same call again must give the same observable result
+        if r[0] != "ok":
+            obs = json.dumps({"err": r[1]})
+        elif op == "join":
+            obs = json.dumps(sorted(([None if x is None else w_cell(x) for x in p_] for p_ in r[1]),
+                                    key=lambda e: json.dumps(e, sort_keys=True)), sort_keys=True)
+        else:
+            obs = json.dumps([w_cell(c) for c in r[1].cells], sort_keys=True)
+        key = (op, other, par)
+        if key in seen and seen[key] != obs:
+            ctx.fail(f"{op}: the same call on the same operands gives a different result the second time "
+                     "(state carried between calls)", b.expand(b.metas[-1], item),
+                     {"step": n, "steps": [list(map(str, s_)) for s_ in steps[:n + 1]]})
+        seen.setdefault(key, obs)
+        if r[0] == "ok":
+            # (c) accessors of the OUTPUT agree with accessors recomputed from the output's cells
+            if op != "join":
+                fresh = accessors(Triangle(list(r[1].cells)))
+                got = accessors(r[1])
+                if got != fresh:
+                    ctx.fail(f"{op}: accessors of the result differ from those recomputed from its cells",
+                             {"op": op, "result_cells": got["cells"]},
+                             {"differs": [k for k in got if got[k] != fresh[k]]})
+            # (a) spoil the result in place before the next call
+            mutate_result(rng, r[1], input_cell_ids, input_dict_ids)
+        if rng.random() < 0.3:
+            # a caller emptying the dict `slices` handed out must not affect later calls
+            st, sl = call(lambda: ta.slices)
+            if st == "ok":
+                sl.clear()
+    # (c) operands and their cached accessors AFTER the whole sequence
+    for k, t in operands.items():
+        after = accessors(t)
+        if after != before[k]:
+            ctx.fail("an operand (or one of its cached accessors: slices, right_edge, metadata, periods) changed "
+                     "during a sequence of join/merge/coalesce/add_statics/period_merge calls",
+                     {"operand": k, "before": before[k]["cells"], "steps": [list(map(str, s_)) for s_ in steps]},
+                     {"differs": [x for x in after if after[x] != before[k][x]]})
+    ctx.case(digest=f"seq:{tri_digest(ta)}:{tri_digest(tb)}:{tri_digest(tc)}:{len(steps)}", nontrivial=len(ta) > 0,
+             sample={"stream": "seq", "kind": kind, "steps": [s_[0] for s_ in steps]} if i < 1 else None)
+
+
+def sequence_stream(ctx, b, rng, n_cases):
+    for i in range(n_cases):
+        seq_case(ctx, b, rng, rng.choice(["C", "U", "I"]), i)
+
+
 def canon_model_vs_impl(op, model, impl_wire):
     """order-insensitive second look when the driver says `not same`: True when the only
     difference is the order of the values dicts (not constrained by the property)"""
@@ -475,11 +667,13 @@ def correspondence(ctx):
         exhaustive(ctx, b, rng, 6, "I", False, 4)
         exhaustive(ctx, b, rng, 4, "C", False, 4)
         random_stream(ctx, b, rng, 3000)
+        sequence_stream(ctx, b, rng, 1200)
     else:
         exhaustive(ctx, b, rng, 5, "U", True, 4)
         exhaustive(ctx, b, rng, 4, "I", False, 3)
         exhaustive(ctx, b, rng, 4, rng.choice(["C", "U"]), False, 3)
         random_stream(ctx, b, rng, 200)
+        sequence_stream(ctx, b, rng, 100)
     res = b.run(drv)
     all_items = [it for _, items in b.batches for it in items]
     for meta, item, out in zip(b.metas, all_items, res):
@@ -517,7 +711,8 @@ if __name__ == "__main__":
              "every `on` subset of {country, k} for join and merge, every pair for add_statics / period_merge, every "
              "triple of sub-triangles for coalesce; designed + seeded random universes, cumulative / incremental / "
              "plain cells. random: larger pairs (overlap, disjoint, empty, self, class mismatch, duplicate coordinates, "
-             "prev-only variants), random `on` over all attributes and detail keys, unknown join type. distinct = "
+             "prev-only variants), random `on` over all attributes and detail keys, unknown join type. sequence: 8-14 "
+             "calls on one target with two sources, each call twice, results spoiled in between, accessors before/after. distinct = "
              "distinct (universe, masks, parameters) / input dump; non-trivial = both operands non-empty",
         assumptions=["operands are Triangles (sorted cell lists of one class) with NaN-free values",
                      "keys are distinct inside each operand after the `on` reduction (otherwise: compared with the model only)",
